@@ -678,6 +678,11 @@ COVER_IRRATIONAL = [(3.14159, 1), (1, 3.14159), (2.71828, 1), (1, 2.71828), (1.4
                     (65537, 44100), (44100, 65537), (48000, 44101), (10.3, 1), (1, 20.7), (37.1, 1), (1.7320508, 1), (1.9099, 1), (1.5557, 1),
                     (1.8375001, 1), (1, 5.0001), (1, 9.87), (1, 41.3), (6.99, 1), (3.3333, 1), (1, 1.2599), (5.00001, 2)]
 COVER_RECIPES = [(1, 0), (2, 0), (3, 0), (4, 0), (5, 0), (6, 0), (7, 0), (8, 0), (9, 0), (10, 0), (4 | 0x40, 0), (6 | 0x40, 0), (3 | 0x40, 0), (5 | 0x40, 0)]
+ANCHOR_RATIOS = [(1, 2), (2, 1), (1, 4), (4, 1), (3, 1), (1, 3), (3, 2), (2, 3), (4, 3), (3, 4), (1, 5), (6, 1), (12, 1), (8, 1), (16, 1), (1, 8), (1, 16),
+                 (5, 3), (7, 4), (5, 2), (2, 5), (5, 1), (2, 9), (1, 12), (3, 16), (10, 1)]
+ANCHOR_RECIPES = [1, 2, 4, 4 | 0x40, 6]
+ANCHOR_SB_GT1 = [(2, 1), (4, 1), (4, 3), (5, 3), (8, 1)]
+ANCHOR_IRRATIONAL = [(3.14159, 1), (1, 3.14159), (1.7320508, 1), (1, 9.87), (6.99, 1)]
 KNOBS_SPECTRAL = ["base", "ph0", "ph25", "ph75", "ph100", "sb<1", "sb>1", "pb", "roll", "prec"]
 _PHASE_BITS = {0: 0x30, 25: 0x10, 100: 0x20}
 
@@ -776,6 +781,23 @@ def cover(rng, knobs, ratios, per_ratio=2, members=3, max_period=64, engines=(0,
                     c["rtflags"] = rt                                      # SOXR_COEF_INTERP_LOW / HIGH: interpolation order forced
                 c = apply_knob(rng, c, knob)
                 cands.append((knob, c, rng.next()))
+    # anchors: a fixed list of (ratio, recipe) whose plans reach every required planner path, always in the pool (the random draws above
+    # reach the rarer paths - LQ up-sampling with the poly-phase stage alone, order 3, time-domain M = 2 - only with some probability)
+    irr = [r for r in ratios if not (float(r[0]).is_integer() and float(r[1]).is_integer())]
+    for (ir, orr) in ANCHOR_RATIOS:
+        for rec in ANCHOR_RECIPES:
+            cands.append(("base", mkcfg(ir, orr, rec, 0, simd=rng.choice(list(engines))), rng.next()))
+    for (ir, orr) in ANCHOR_SB_GT1:
+        for rec in (3, 4, 6):
+            cands.append(("sb>1", apply_knob(rng, mkcfg(ir, orr, rec, 0, simd=rng.choice(list(engines))), "sb>1"), rng.next()))
+    if irr:
+        for (ir, orr) in ANCHOR_IRRATIONAL:
+            for rec in (4, 7):
+                for rt in (None, 2, 3):
+                    c = mkcfg(ir, orr, rec, 0, simd=rng.choice(list(engines)))
+                    if rt is not None:
+                        c["rtflags"] = rt
+                    cands.append(("base", c, rng.next()))
     infos = pool_map(job_planinfo, [c for _, c, _ in cands], chunksize=32)
     groups = {}
     n_err = 0
